@@ -1,10 +1,11 @@
 (* C10 - Trotter steps. Only the property theorems, closed by `exact`, with their assumptions and non-vacuity examples.
-   PARTIAL: "equals exp(-iHdt) when the terms commute" is proved in the form: the product of term exponentials is
-   independent of the term order when the terms pairwise commute (with two proved sufficient conditions), each factor
-   being the true exponential by C09; the product-formula error BOUNDS with constants are checked numerically only. *)
+   PARTIAL: "equals exp(-iHdt) when the terms commute" is proved algebraically: the sweep is the product of the term
+   exponentials (each the true exponential by C09), independent of the term order, the second-order step equals the
+   first-order one and steps compose additively (one-parameter group) when the terms commute pairwise; the matrix
+   exponential of the SUM is not defined as a limit. The product-formula error BOUNDS are checked numerically only. *)
 From Coq Require Import List NArith ZArith Bool Ring Reals Lra Permutation.
 From QI Require Import Base.ListAux Base.Scalar Model.Outcome Model.Validate Model.Gates Model.StateOps Model.Pauli Model.Trotter Spec.Embed
-  Proofs.PauliF Proofs.C04a Proofs.C08 Proofs.C09 Proofs.C10 Proofs.C10b Proofs.C10c Run.RInst Run.ZInst.
+  Proofs.PauliF Proofs.C04a Proofs.C08 Proofs.C09 Proofs.C10 Proofs.C10b Proofs.C10c Proofs.C10d Run.RInst Run.ZInst.
 Import ListNotations.
 Open Scope N_scope.
 
@@ -73,6 +74,49 @@ Theorem C10_disjoint_strings_commute :
   forall A B, NoDup (map fst A) -> NoDup (map fst B) -> (forall q, In q (map fst A) -> ~ In q (map fst B)) -> ops_commute O A B.
 Proof. exact @disjoint_commute. Qed.
 Print Assumptions C10_commuting_terms_any_order. Print Assumptions C10_diagonal_strings_commute. Print Assumptions C10_disjoint_strings_commute.
+
+(* the sweep the code performs over a list of terms IS the product of the term exponentials, amplitude by amplitude
+   (each factor being the true exponential of its term: C09); an empty string contributes the scalar e^a *)
+Theorem C10_sweep_is_product_of_exponentials :
+  forall (T : Type) (O : sops T), ring_of O ->
+  forall par n (ts : list (eterm (T:=T))), Forall (term_ok n) ts -> forall v, length v = N.to_nat (2 ^ n) ->
+  run_eterms O par ts (mkState n v) = Ok (mkState n (map (runf O (map (to_f O) ts) (get (c0 O) v)) (Nrange (2 ^ n)))).
+Proof. exact @run_eterms_is_runf. Qed.
+
+(* exact when all terms commute, in the algebraic form that does not need a matrix exponential of the sum:
+   (1) the symmetric second-order step equals the first-order step (the half-step values doubled by the double-angle
+   formulas), and (2) steps form a one-parameter group: the step for s followed by the step for t is the step for s + t
+   (values composed by the addition formulas). With C09 (each factor is e^{-i c t P}) and the order independence above,
+   the step is t |-> prod_k e^{-i c_k t P_k}, the unique one-parameter group generated by -iH, i.e. e^{-iHt}. *)
+Theorem C10_second_order_is_first_order_when_commuting :
+  forall (T : Type) (O : sops T), ring_of O ->
+  forall par n (Hhalf Hfull : list (eterm (T:=T))) v,
+  Hhalf <> [] -> Forall (term_ok n) Hhalf -> Forall (term_ok n) Hfull -> length v = N.to_nat (2 ^ n) ->
+  commuting O (map (to_f O) Hhalf) -> map (to_f O) Hfull = map (fdbl O) (map (to_f O) Hhalf) ->
+  second_order_step O par Hhalf (mkState n v) = first_order_step O par Hfull (mkState n v).
+Proof. exact @second_order_is_first_order_commuting. Qed.
+Theorem C10_steps_compose_when_commuting :
+  forall (T : Type) (O : sops T), ring_of O ->
+  forall par n (H1 H2 H12 : list (eterm (T:=T))) v,
+  H1 <> [] -> Forall (term_ok n) H1 -> Forall (term_ok n) H2 -> Forall (term_ok n) H12 -> length v = N.to_nat (2 ^ n) ->
+  same_strings (map (to_f O) H2) (map (to_f O) H1) -> commuting O (map (to_f O) H2) ->
+  map (to_f O) H12 = fzip O (map (to_f O) H2) (map (to_f O) H1) ->
+  bind (first_order_step O par H1 (mkState n v)) (first_order_step O par H2) = first_order_step O par H12 (mkState n v).
+Proof. exact @steps_compose_commuting. Qed.
+(* over the reals the composition rules are the addition formulas: values for x and y compose to the values for x + y *)
+Theorem C10_real_angles_compose :
+  forall x y ops, fcomp rops (rterm x ops) (rterm y ops) = rterm (x + y) ops.
+Proof. exact fcomp_angles. Qed.
+Print Assumptions C10_sweep_is_product_of_exponentials. Print Assumptions C10_second_order_is_first_order_when_commuting.
+Print Assumptions C10_steps_compose_when_commuting. Print Assumptions C10_real_angles_compose.
+
+Example C10_commuting_nonvacuous :
+  let P1 := mkPS (T:=R) [(0%N, PZ); (1%N, PZ)] (1, 0)%R in let P2 := mkPS (T:=R) [(1%N, PZ)] (1, 0)%R in
+  let half := [(P1, ((1, 0), (cos 1, 0), (0, - sin 1))); (P2, ((1, 0), (cos 2, 0), (0, - sin 2)))]%R in
+  let full := [(P1, ((1, 0), (cos (1 + 1), 0), (0, - sin (1 + 1)))); (P2, ((1, 0), (cos (2 + 2), 0), (0, - sin (2 + 2))))]%R in
+  half <> [] /\ Forall (term_ok 2) half /\ Forall (term_ok 2) full /\ commuting rops (map (to_f rops) half) /\
+  map (to_f rops) full = map (fdbl rops) (map (to_f rops) half).
+Proof. exact commuting_example. Qed.
 
 (* non-vacuity over the reals: a 3-4-5 rotation term and its inverse satisfy the hypotheses *)
 Example C10_nonvacuous_R :
